@@ -76,3 +76,20 @@ CLAIMS["C19"] = dict(category="other",
           "every case reaches the common epilogue or is a tabled early exit; every return is an error exit; output writes call maybe_resize before storing; input read/seek/skip are bounds-checked and followed by an error test; "
           "no implicit narrowing of stack values in any instantiation."),
     note=_NOTE, technique=_T + "syntax-directed abstract interpretation (typestate) over the VM's dispatch loop; table agreement; WIDTH lint")
+
+CLAIMS["C15"] = dict(category="other",
+    text=("Writer/reader alphabet agreement: each of the four ToJson* writers emits, for every builder-alphabet method, the rapidjson event of that meaning with its own argument, and the SAX Handler callback of every event "
+          "calls exactly that builder method and returns true (141 cells): reader o writer is the identity on the alphabet; the four writer classes are clones; begin/end list/record calls are balanced on every path of all 31 "
+          "tojson helpers (path-sensitive on the include_beginendlist flag); do_parse throws on every path where a document is incomplete and never returns from inside the document loop; the builder promotion table "
+          "(what from_json builds) is as documented."),
+    note=_NOTE + " rapidjson itself is absent (declaration-only stub for type checking).", technique=_T + "rule families J TABLE, E.2 CLONE, L.5 PAIR (balanced-call abstract interpretation), D ERRFLOW, M BUILDER")
+CLAIMS["C17"] = dict(category="other",
+    text=("Form <-> JSON agreement for all 14 Form classes (class names written are accepted and rebuilt as the same Form; keys read = keys written); the 11 structure queries of every Form class are clones of its "
+          "array class's; XArray::type is form(true)->type for every node class; util dtype tables are mutual inverses (exhaustive); every primitive type name the printer can emit must be in the type grammar's TYPE terminal and in "
+          "the generated parser (7 known findings: float16/float128/complex*/datetime64/timedelta64 are printed but not parsable)."),
+    note=_NOTE, technique=_T + "rule families J TABLE (writer/reader key sets, printer vs grammar terminals), E.2 CLONE (Form vs Array), K FORWARD, N FINTAB")
+CLAIMS["C20"] = dict(category="other",
+    text=("For all 11 numba ContentType classes: slot constants are 0..n-1, tolookup/form_tolookup append the buffers in slot order, and every binding from / store into a slot carries that slot's role stem "
+          "(startspos <- STARTS ...); every lower_getitem_at re-binds atval = regularize_atval(...) before the first element read; the extern \"C\" ArrayBuilder API, its ctypes declarations and the 20 lowered calls in "
+          "builder.py agree in name, arity and argument types; extern \"C\" entry points never throw; isinstance dispatches over layout classes are width-complete."),
+    note=_NOTE + " Python side analysed with ast only; nothing is imported.", technique=_T + "rule families J TABLE (slot tables, C API), ROLE, L.2 GUARD, E.3")
